@@ -130,7 +130,7 @@ def tla_unescape(s):
 def printed_records(out, tag):
     """JSON records printed by the specification with PrintT(<<tag, ToJson(..)>>)."""
     recs = []
-    for line in out.splitlines():
+    for line in out.split("\n"):
         m = _REC.match(line)
         if m and m.group(1) == tag:
             recs.append(json.loads(tla_unescape(m.group(2))))
